@@ -17,6 +17,7 @@ from ..session import Run, TracingScript
 from .. import peer as P
 from ..profile import Profile
 
+THR0 = 5000          # set-compression thresholds are THR0 + position: frames stay plain inside the envelope
 VERSIONS = {'play': [757, 340, 47, 498], 'login': [757, 404, 578]}
 
 
@@ -25,16 +26,18 @@ def execute(row, seed, version=None):
     from minecraft.exceptions import IgnorePacket
     st = row['st']
     rng = random.Random(seed)
-    version = version or rng.choice(VERSIONS[st])
-    prof = Profile(version)
     hist = row['hist']
+    version = version or (47 if (st == 'play' and 'C' in hist) else rng.choice(VERSIONS[st]))
+    prof = Profile(version)
     if st == 'play':
         cls = {'Packet': (Packet,), 'Abs': (AbstractKeepAlivePacket,), 'A': (cb.play.KeepAlivePacket,),
-               'RA': (sb.play.KeepAlivePacket,), 'B': (cb.play.TimeUpdatePacket,), 'D': (cb.play.DisconnectPacket,)}
+               'RA': (sb.play.KeepAlivePacket,), 'B': (cb.play.TimeUpdatePacket,), 'D': (cb.play.DisconnectPacket,),
+               'C': (cb.play.SetCompressionPacket,)}
     else:
         cls = {'Packet': (Packet,), 'Abs': (cb.login.PluginRequestPacket, sb.login.PluginResponsePacket),
                'A': (cb.login.PluginRequestPacket,), 'RA': (sb.login.PluginResponsePacket,),
-               'B': (cb.login.EncryptionRequestPacket,), 'D': (cb.login.LoginSuccessPacket,)}
+               'B': (cb.login.EncryptionRequestPacket,), 'D': (cb.login.LoginSuccessPacket,),
+               'C': (cb.login.SetCompressionPacket,)}
 
     def kind_occ(pkt):
         if type(pkt) is Packet:
@@ -48,6 +51,8 @@ def execute(row, seed, version=None):
             return 'B', pkt.world_age
         if isinstance(pkt, cb.play.DisconnectPacket) and st == 'play':
             return 'D', len(hist)
+        if isinstance(pkt, (cb.login.SetCompressionPacket, cb.play.SetCompressionPacket)):
+            return 'C', pkt.threshold - THR0
         if isinstance(pkt, cb.login.PluginRequestPacket):
             return 'A', pkt.message_id
         if isinstance(pkt, sb.login.PluginResponsePacket):
@@ -61,7 +66,15 @@ def execute(row, seed, version=None):
     while any((uid0 + j) in known for j in range(len(hist) + 1)):
         uid0 += 1
 
+    def matches(l, kind):
+        cl = {'A': {'Packet', 'Abs', 'A'}, 'B': {'Packet', 'B'}, 'U': {'Packet'}, 'D': {'Packet', 'D'}, 'C': {'Packet', 'C'}}[kind]
+        return bool(set(l['f']) & cl)
+    # an early listener that ignores the set-compression packet keeps the reaction from happening: the peer stays plain
+    c_suppressed = any(l['ig'] and matches(l, 'C') for l in row['EI'])
+
     def payload(k, kind):
+        if kind == 'C':
+            return P.VI(prof.c['play_compress' if st == 'play' else 'login_compress']) + P.VI(THR0 + k)
         if st == 'play':
             if kind == 'A':
                 return prof.keep_alive(k)
@@ -87,6 +100,8 @@ def execute(row, seed, version=None):
         steps.append(('pause', 'go'))
         for k, kind in enumerate(hist, 1):
             steps.append(('send', payload(k, kind)))
+            if kind == 'C' and not c_suppressed:
+                steps.append(('compress', THR0 + k))
             if not row['batch']:
                 steps.append(('pause', 'p%d' % k))
         sc.steps = steps
@@ -97,6 +112,24 @@ def execute(row, seed, version=None):
 
     def scenario(run):
         c = run.make_connection(allowed_versions={version})
+        holder['c'] = c
+        answered = set()
+        real_write = c.write_packet
+
+        def noting_write(packet, force=False):
+            answered.add(getattr(packet, 'keep_alive_id', getattr(packet, 'message_id', None)))
+            return real_write(packet, force)
+        c.write_packet = noting_write
+
+        def effect_visible(kd, occ):
+            # is the built-in reaction to this packet occurrence already in effect?
+            if kd == 'A':
+                return occ in answered
+            if kd == 'C':
+                return bool(c.options.compression_enabled) and c.options.compression_threshold == THR0 + occ
+            if kd == 'D':
+                return (c.socket is None) if st == 'play' else type(c.reactor).__name__ == 'PlayingReactor'
+            return False
         c.connect()
         run.settle()
         regs = []
@@ -124,7 +157,7 @@ def execute(row, seed, version=None):
 
             def cbk(pkt, name=name, i=i, l=l):
                 kd, occ = kind_occ(pkt)
-                log.append([name, i, kd, occ])
+                log.append([name, i, kd, occ, 1 if (name in ('EI', 'OI') and effect_visible(kd, occ)) else 0])
                 if l['ig']:
                     raise IgnorePacket
             c.register_packet_listener(cbk, *types, early=early, outgoing=outgoing)
@@ -159,6 +192,7 @@ def execute(row, seed, version=None):
         else:
             wire.append('?' + p['t'])
     closed = sc.client_closed
+    run.comp = bool(holder['c'].options.compression_enabled)
     return run, log, wire, closed, version
 
 
@@ -187,10 +221,16 @@ def run(chk):
             j = next((j for j in range(min(len(log), len(row['log']))) if log[j] != row['log'][j]), min(len(log), len(row['log'])))
             what = 'call log differs at entry %d: real %r, model %r' % (j, log[j:j + 2], row['log'][j:j + 2])
             key = 'dispatch:%s:log' % row['st']
+            if [e[:4] for e in log] == [e[:4] for e in row['log']]:
+                what = ('the built-in reaction is not between the early and the ordinary listeners: at entry %d the listener saw '
+                        'effect=%r, model %r (entries [list, index, kind, occurrence, effect visible])' % (j, log[j], row['log'][j]))
+                key = 'dispatch:%s:reaction-stage' % row['st']
         elif wire != row['wire']:
             what, key = 'answers on the wire %r, model %r' % (wire, row['wire']), 'dispatch:%s:wire' % row['st']
         elif closed != row['closed']:
             what, key = 'connection closed=%r, model %r' % (closed, row['closed']), 'dispatch:%s:closed' % row['st']
+        elif run_.comp != row['comp']:
+            what, key = 'compression enabled=%r at the end, model %r' % (run_.comp, row['comp']), 'dispatch:%s:reaction-effect' % row['st']
         elif run_.errors:
             what, key = 'unexpected error %r' % (run_.errors[-1],), 'dispatch:%s:error' % row['st']
         elif getattr(run_, 'forced_exc', None) is not None:
@@ -203,7 +243,7 @@ def run(chk):
             chk.sample({'config': {k: row[k] for k in ('EI', 'OI', 'EO', 'OO', 'hist', 'batch', 'st')}, 'log': log, 'wire': wire})
 
     # ---- I->S: larger random configurations, validated by running the model from the recorded configuration
-    FILT = [['Packet'], ['Abs'], ['A', 'Packet'], ['B', 'RA'], ['D', 'A'], ['A'], ['RA'], ['B'], ['Abs', 'D'], []]
+    FILT = [['Packet'], ['Abs'], ['A', 'Packet'], ['B', 'RA'], ['D', 'A'], ['A'], ['RA'], ['B'], ['Abs', 'D'], [], ['C'], ['C', 'A'], ['B', 'RA', 'C']]
     obs = []
     n_big = 400 if quick else 5000
     for j in range(n_big):
@@ -211,13 +251,15 @@ def run(chk):
         def lst(mx):
             return [{'f': rng.choice(FILT), 'ig': rng.random() < 0.25} for _ in range(rng.randint(0, mx))]
         kinds = ['A', 'A', 'U', 'B'] if st == 'play' else ['A', 'A', 'U']
+        if rng.random() < 0.35:
+            kinds = kinds + ['C']
         row = {'EI': lst(3), 'OI': lst(3), 'EO': lst(3), 'OO': lst(3), 'st': st, 'batch': rng.random() < 0.5, 'forced': True,
                'hist': [rng.choice(kinds) for _ in range(rng.randint(1, 6))] + ['D']}
         run_, log, wire, closed, version = execute(row, chk.seed * 31337 + j)
         chk.traces += 1
         chk.case(('big', j))
         o = dict(row)
-        o['log'], o['wire'] = log, wire
+        o['log'], o['wire'], o['comp'] = log, wire, run_.comp
         obs.append(o)
     tf = os.path.join(chk.work, 'dispatch_obs.json')
     with open(tf, 'w') as f:
